@@ -3,8 +3,9 @@
 
    One INSTANCE = one exported behaviour of MC_BodyPaths bound to concrete JSON tokens on one real document:
      {a:"Reset", inst, beh, doc, toks, cls}                                   start of an instance
-     {a:"Create"|"Supersede"|"Branch", wp, wins, tok, status, acc, tree, cur}  a body write; tree/cur = REAL rev tree
-                                                                              afterwards (parents in model numbering)
+     {a:"Create"|"Supersede"|"Branch", wp, wins, tok, status, acc, tree, cur, tomb}  a body write; tree/cur/tomb = REAL
+                                                                              rev tree afterwards (model numbering)
+     {a:"TombstoneWinner", wp, tok, status, acc, tree, cur, tomb}             DELETE of the winning leaf
      {a:"WriteReserved", wp, cls, mode, status, stored, getStatus}            a reserved-property write
      {a:"Reads", items:[{rev, rp, cache, status, valid, got, extra, ...}]}    every read cell of the instance;
                                                                               got = which token of this instance the
@@ -34,29 +35,30 @@ Started == hist # <<>>
 Count == TLCSet(1, TLCGet(1) + 1)
 
 TInit == /\ l \in StartLines
-         /\ tree = <<>> /\ cur = 0 /\ obs = NoObs /\ written = <<>> /\ by = <<>> /\ hist = <<>>
+         /\ tree = <<>> /\ cur = 0 /\ tomb = {} /\ obs = NoObs /\ written = <<>> /\ by = <<>> /\ hist = <<>>
 
 Ev(a) == l <= TraceLen /\ T.a = a /\ Started /\ l' = l + 1
 
 Reset == /\ l <= TraceLen /\ T.a = "Reset" /\ ~Started /\ l' = l + 1
          /\ hist' = <<[act |-> "started"]>>
-         /\ UNCHANGED <<tree, cur, obs, written, by>>
+         /\ UNCHANGED <<tree, cur, tomb, obs, written, by>>
 
-LoggedTree == tree' = T.tree /\ cur' = T.cur /\ obs' = NoObs
+LoggedTree == tree' = T.tree /\ cur' = T.cur /\ tomb' = ToSet(T.tomb) /\ obs' = NoObs
 
 (* ---------------- pass P ---------------- *)
 PCreate    == Ev("Create")    /\ LoggedTree /\ (IF T.acc THEN GhostCreate(T.wp, T.tok) ELSE UNCHANGED <<written, by>>) /\ UNCHANGED hist
 PSupersede == Ev("Supersede") /\ LoggedTree /\ (IF T.acc THEN GhostWrite(T.wp, T.tok)  ELSE UNCHANGED <<written, by>>) /\ UNCHANGED hist
 PBranch    == Ev("Branch")    /\ LoggedTree /\ (IF T.acc THEN GhostWrite(T.wp, T.tok)  ELSE UNCHANGED <<written, by>>) /\ UNCHANGED hist
+PTomb      == Ev("TombstoneWinner") /\ LoggedTree /\ (IF T.acc THEN GhostTombstone ELSE UNCHANGED <<written, by>>) /\ UNCHANGED hist
 LoggedResv == obs' = [k |-> IF T.cls \in MustReject(T.wp) THEN "resv" ELSE "lenient", wp |-> T.wp, cls |-> T.cls, mode |-> T.mode,
                       status |-> T.status, stored |-> T.stored, getStatus |-> T.getStatus]
-PResv      == Ev("WriteReserved") /\ LoggedResv /\ UNCHANGED <<tree, cur, written, by, hist>>
+PResv      == Ev("WriteReserved") /\ LoggedResv /\ UNCHANGED <<tree, cur, tomb, written, by, hist>>
 Item(n) == LET x == T.items[n] IN
            [n |-> n, rev |-> x.rev, rp |-> x.rp, cache |-> x.cache, status |-> x.status, valid |-> x.valid, got |-> x.got,
             extra |-> ToSet(x.extra)]
 LoggedReads == obs' = [k |-> "reads", items |-> {Item(n) : n \in 1..Len(T.items)}]
-PReads     == Ev("Reads") /\ LoggedReads /\ UNCHANGED <<tree, cur, written, by, hist>>
-PCore == Reset \/ PCreate \/ PSupersede \/ PBranch \/ PResv \/ PReads
+PReads     == Ev("Reads") /\ LoggedReads /\ UNCHANGED <<tree, cur, tomb, written, by, hist>>
+PCore == Reset \/ PCreate \/ PSupersede \/ PBranch \/ PTomb \/ PResv \/ PReads
 PNext == PCore /\ Count
 PSpec == TInit /\ [][PNext]_tvars
 
@@ -64,16 +66,19 @@ PSpec == TInit /\ [][PNext]_tvars
 FidelityR == Fidelity \/ ((\A x \in {y \in obs.items : ~FidOK(y)} : PrintT(<<"BAD", l - 1, x.n>>)) /\ FALSE)
 
 (* ---------------- pass C ---------------- *)
-Refused == UNCHANGED <<tree, cur>> /\ obs' = NoObs
+Refused == UNCHANGED <<tree, cur, tomb>> /\ obs' = NoObs
 CCreate    == Ev("Create")    /\ N = 0 /\ (IF T.acc THEN ImplCreate ELSE Refused) /\ LoggedTree
               /\ (IF T.acc THEN GhostCreate(T.wp, T.tok) ELSE UNCHANGED <<written, by>>) /\ UNCHANGED hist
 CSupersede == Ev("Supersede") /\ N > 0 /\ T.wp \in ChildCapable /\ (IF T.acc THEN ImplSupersede ELSE Refused) /\ LoggedTree
               /\ (IF T.acc THEN GhostWrite(T.wp, T.tok) ELSE UNCHANGED <<written, by>>) /\ UNCHANGED hist
 CBranch    == Ev("Branch")    /\ N > 0 /\ T.wp \in BranchCapable /\ (IF T.acc THEN ImplBranch(T.wins) ELSE Refused) /\ LoggedTree
               /\ (IF T.acc THEN GhostWrite(T.wp, T.tok) ELSE UNCHANGED <<written, by>>) /\ UNCHANGED hist
+CTomb      == Ev("TombstoneWinner") /\ N > 0 /\ Cardinality(LiveLeaves) = 2 /\ tomb = {}
+              /\ (IF T.acc THEN ImplTombstoneWinner ELSE Refused) /\ LoggedTree
+              /\ (IF T.acc THEN GhostTombstone ELSE UNCHANGED <<written, by>>) /\ UNCHANGED hist
 CResv      == Ev("WriteReserved") /\ ResvEnabled(T.wp, T.cls) /\ T.mode = ResvMode /\ T.status < 500
               /\ (T.cls \in MustReject(T.wp) => T.status \in {400, 404, 409})
-              /\ LoggedResv /\ UNCHANGED <<tree, cur, written, by, hist>>
+              /\ LoggedResv /\ UNCHANGED <<tree, cur, tomb, written, by, hist>>
 (* exactly the cells of the model were exercised (minus the ones the harness reported unobservable), and everything
    the model says is available answered 200 *)
 (* a superseded revision is still served from the revision cache while that is warm, unless the superseding write was
@@ -87,8 +92,8 @@ CReads ==
      IN  (got \cup skipped = CellsNow) /\ (got \cap skipped = {})
   /\ \A n \in 1..Len(T.items) : (T.items[n].status = 200) \/ MayBeGone(T.items[n].rev, T.items[n].cache)
   /\ LoggedReads
-  /\ UNCHANGED <<tree, cur, written, by, hist>>
-CCore == Reset \/ CCreate \/ CSupersede \/ CBranch \/ CResv \/ CReads
+  /\ UNCHANGED <<tree, cur, tomb, written, by, hist>>
+CCore == Reset \/ CCreate \/ CSupersede \/ CBranch \/ CTomb \/ CResv \/ CReads
 CNext == CCore /\ Count
 CSpec == TInit /\ [][CNext]_tvars
 
